@@ -304,6 +304,50 @@ func checkDPModel(what string, in []orb.Point, kept []int, t float64) error {
 	return verify(0, len(in)-1, kept[1:len(kept)-1])
 }
 
+// ---------------------------------------------------------------- distance functions
+
+// ownDistance is the harness's own statement of the library metrics that are
+// handed to the radial simplifier (the property is parametric in the distance
+// function, so the radial oracle necessarily evaluates the same function; what
+// that function returns is judged here, so that a change inside planar/ or
+// geo/ cannot move the oracle with it).
+func ownDistance(name string, a, b orb.Point) float64 {
+	switch name {
+	case "geo":
+		const r = 6378137.0 // metres, the value orb documents as EarthRadius
+		rad := func(d float64) float64 { return d * math.Pi / 180 }
+		dlat := rad(a[1] - b[1])
+		dlon := math.Abs(rad(a[0] - b[0]))
+		if dlon > math.Pi {
+			dlon = 2*math.Pi - dlon
+		}
+		x := dlon * math.Cos(rad((a[1]+b[1])/2))
+		return math.Sqrt(dlat*dlat+x*x) * r
+	case "manhattan":
+		return math.Abs(a[0]-b[0]) + math.Abs(a[1]-b[1])
+	}
+	dx, dy := a[0]-b[0], a[1]-b[1]
+	return math.Sqrt(dx*dx + dy*dy)
+}
+
+// checkedDF wraps the library distance function: every value the oracle uses
+// must agree with ownDistance within 1e-12 relative (or both below the
+// underflow floor); the first disagreement is stored in *bad.
+func checkedDF(name string, lib orb.DistanceFunc, bad *error) orb.DistanceFunc {
+	own := name
+	if name == "planar-reentrant" {
+		own = "planar"
+	}
+	return func(a, b orb.Point) float64 {
+		v := lib(a, b)
+		w := ownDistance(own, a, b)
+		if *bad == nil && !(math.Abs(v-w) <= 1e-12*math.Max(math.Abs(v), math.Abs(w)) || (math.Abs(v) < underflowDist && math.Abs(w) < underflowDist)) {
+			*bad = fmt.Errorf("distance function %s: %v -> %v measures %v, the harness's own formula gives %v", name, a, b, v, w)
+		}
+		return v
+	}
+}
+
 // ---------------------------------------------------------------- radial
 
 // radialModel is the greedy scan: keep a vertex when it is farther than t from
